@@ -88,19 +88,19 @@ type subject struct {
 	model kvModel // the view
 
 	// flushable bookkeeping (only when top is a flushable)
-	fl        kvdb.FlushableKVStore
-	under     kvModel            // what the underlying store must hold
-	rawUnder  func() kvModel     // reads the underlying store's raw contents
-	dirty     map[string]bool    // distinct keys written since the last flush/drop
-	lazy      *flushable.LazyFlushable
-	lazyInit  bool
+	fl       kvdb.FlushableKVStore
+	under    kvModel         // what the underlying store must hold
+	rawUnder func() kvModel  // reads the underlying store's raw contents
+	dirty    map[string]bool // distinct keys written since the last flush/drop
+	lazy     *flushable.LazyFlushable
+	lazyInit bool
 
-	batch   kvdb.Batch
-	bops    []KV
-	snaps   []*liveSnap
-	iters   []*liveIter
-	weakIt  bool // iterators may overlap writes (flushable): weak oracle; otherwise point-in-time
-	closed  bool
+	batch  kvdb.Batch
+	bops   []KV
+	snaps  []*liveSnap
+	iters  []*liveIter
+	weakIt bool // iterators may overlap writes (flushable): weak oracle; otherwise point-in-time
+	closed bool
 }
 
 func (s *subject) viol(class, sig, f string, a ...interface{}) {
@@ -228,9 +228,15 @@ func (s *subject) batchReset() {
 	}
 }
 
-type recWriter struct{ ops []KV }
+type recWriter struct {
+	ops     []KV
+	nilPuts int // Put calls that handed over a nil value (the stores of this library refuse them)
+}
 
 func (w *recWriter) Put(k, v []byte) error {
+	if v == nil {
+		w.nilPuts++
+	}
 	w.ops = append(w.ops, KV{append([]byte{}, k...), append([]byte{}, v...)})
 	return nil
 }
@@ -256,6 +262,36 @@ func (s *subject) batchReplay() {
 	}
 	if !ok {
 		s.viol("kv-replay", "kv-replay", "batch.Replay produced %s, staged operations were %s", fmtPairs(w.ops), fmtPairs(s.bops))
+	}
+	if w.nilPuts > 0 {
+		s.viol("kv-replay", "kv-replay/nil-value", "batch.Replay called Put with a nil value %d time(s) (staged operations %s): an empty value is a value, and the stores of this library refuse nil", w.nilPuts, fmtPairs(s.bops))
+	}
+	// the same batch replayed into a real store: every staged operation takes effect there
+	dst := memorydb.New()
+	if err := s.batch.Replay(dst); err != nil {
+		s.viol("kv-error", "kv-error/replay", "batch.Replay into a memory store: %v", err)
+	}
+	want := kvModel{}
+	for _, o := range s.bops {
+		if o.V == nil {
+			delete(want, string(o.K))
+		} else {
+			want[string(o.K)] = o.V
+		}
+	}
+	got := kvModel{}
+	it := dst.NewIterator(nil, nil)
+	for it.Next() {
+		got[string(it.Key())] = append([]byte{}, it.Value()...)
+	}
+	it.Release()
+	if len(got) != len(want) {
+		s.viol("kv-replay", "kv-replay/into-store", "batch.Replay into an empty memory store left %d keys, the staged operations %s leave %d", len(got), fmtPairs(s.bops), len(want))
+	}
+	for k, v := range want {
+		if g, ok := got[k]; !ok || !bytes.Equal(g, v) {
+			s.viol("kv-replay", "kv-replay/into-store", "batch.Replay into an empty memory store: key %x is %x (present=%v), the staged operations %s give %x", k, g, ok, fmtPairs(s.bops), v)
+		}
 	}
 	s.c.Count("batch_replays", 1)
 }
